@@ -57,11 +57,13 @@ func (c *Chan[T]) Send(v T) {
 		r.val, r.ok, r.done = v, true, true
 		Ready(r.t)
 		Progress()
+		Yield() // the receiver may run before the sender's next statement
 		return
 	}
 	if len(c.buf) < c.cap {
 		c.buf = append(c.buf, v)
 		Progress()
+		Yield()
 		return
 	}
 	w := &chanWaiter[T]{t: Current(), val: v}
